@@ -10,7 +10,7 @@ out=/tmp/confirm_${id}_$mode
 git -C /repo worktree remove --force $wt 2>/dev/null; rm -rf $wt; git -C /repo worktree prune
 git -C /repo worktree add -q --detach $wt HEAD || exit 3
 demo=$(ls $src/demo.py $src/test_demo.py 2>/dev/null | head -1)
-mkdir -p $wt/_seed; cp $demo $wt/_seed/
+mkdir -p $wt/_seed; cp $src/*.py $wt/_seed/
 dn=_seed/$(basename $demo)
 run_demo() {  # $1 = tag
   (cd $wt && PYTHONPATH=$wt setsid timeout -k 2 400 /venv/bin/python $dn > $out.demo_$1.txt 2>&1 < /dev/null; echo "exit=$?" >> $out.demo_$1.txt)
